@@ -35,6 +35,8 @@ def exec_history(job):
                 obj = Port(" ".join([s["op"]] + [str(x) for x in s["xs"]]), **kw)
             elif s["act"] == "SetItems":
                 obj.items = list(s["xs"])
+            elif s["act"] == "SetLine":
+                obj.line = " ".join([s["op"]] + [str(x) for x in s["xs"]])
             elif s["act"] == "WriteBackItems":
                 obj.items = obj.items
             elif s["act"] == "WriteBackPorts":
@@ -85,7 +87,7 @@ def concretise(hists, maps, tid0, platforms):
                 skip = False
                 for s in h["hist"]:
                     st = dict(act=s["act"])
-                    if s["act"] in ("New", "SetItems"):
+                    if s["act"] in ("New", "SetItems", "SetLine"):
                         st["op"] = s["op"]
                         st["xs"] = [mp_[x - 1] for x in s["xs"]]
                         if plat != "ios" and len(st["xs"]) > 1 and (s["op"] in ("eq", "neq") or s["act"] == "SetItems"):
@@ -143,8 +145,20 @@ def random_histories(rng, n, tid0):
             return rng.sample(sorted(set(pool)), min(n_, len(set(pool))))
         steps = [dict(act="New", op=op, xs=operands())]
         for _k in range(rng.randint(1, 5)):
-            if rng.random() < 0.25:
+            r = rng.random()
+            if r < 0.2:
                 steps.append(dict(act="SetItems", xs=operands()))
+            elif r < 0.4:       # the line re-assigned: another operator with the same operands where the arity allows, or a new expression
+                prev = [x for x in steps if "xs" in x][-1]["xs"]
+                same = {1: ["eq", "neq", "lt", "gt"], 2: ["eq", "neq", "range"]}.get(len(prev))
+                if len(set(prev)) < len(prev):
+                    same = None         # eq / neq operands are listed once each (domain of the model: tuples without repetition)
+                if same and rng.random() < 0.6:
+                    op = rng.choice(same)
+                    steps.append(dict(act="SetLine", op=op, xs=list(prev)))
+                else:
+                    op = rng.choice(["eq", "neq", "range", "lt", "gt"])
+                    steps.append(dict(act="SetLine", op=op, xs=operands()))
             else:
                 steps.append(dict(act=rng.choice(WB)))
         jobs.append(dict(tid=t, steps=steps, origin="random", protocol=rng.choice(["tcp", "udp"])))
